@@ -68,6 +68,19 @@ Proof.
 Qed.
 Print Assumptions C33_early_read_refresh_refuted.
 
+(** a cash-out receipt handler that stores the cashed amount under the served-total key (instead
+    of the cached on-chain amount, as the code does) forgets, at the next restart, the traffic
+    served beyond the last received cheque; the code as it is restores it on the same history:
+    regression witness, replayed on the Go code by the harness (sequential cash-out cases) *)
+Theorem C33_cash_overwrites_total_refuted :
+  exists s0 sched, let s := exec s0 sched in
+    lock s0 = None /\ mem s0 = restore (disk s0) /\ ~ (tT0 (gh s) + doneT (gh s) <= tT (restore (disk s))).
+Proof.
+  exists cash_s0, (repeat 0%nat 12). destruct cash_overwrites_total_refuted as [A [B _]]. cbv zeta in A, B |- *.
+  split; [reflexivity|]. split; [reflexivity|]. rewrite A, B. vm_compute. intros H. apply H. reflexivity.
+Qed.
+Print Assumptions C33_cash_overwrites_total_refuted.
+
 (** non-vacuity: a run in which operations really complete and are covered *)
 Example C33_nonvacuous :
   let s := exec (boot true d_zero (ghost0 (restore d_zero)) [[PutR 5; PutT 7]; [PutR 3]; [Pay 4]; [Recv 9]])
